@@ -332,8 +332,9 @@ Proof. exact to_check_positions. Qed.
 Print Assumptions to_check_preserves_positions.
 
 (* ... and gives None, for a statement the parser returned, exactly for a SELECT with GROUP BY one
-   of whose fields uses the name of a field (parseGroupBy then rewrites fields in place before
-   WHERE and ValidateFields see them; the checker twin models fields that are checked once) *)
+   of whose fields uses the name of a field (kept outside since before resolveFieldNames
+   existed, when parseGroupBy's Check rewrote such fields in place ahead of WHERE and
+   ValidateFields; see Model/ParseCheck.v) *)
 Theorem to_check_none_exactly : forall (h : hooks) (ts : list token) (s : StmtParser.stmt),
   parse_with h ts = SOk s ->
   (to_check s = None <->
@@ -366,11 +367,11 @@ Example parse_check_rejections_nonvacuous : forall fo : fops,
   parse_check fo "   select key where value = 'a' order by kk" = PCErr KMidParse 41%Z /\
   parse_check fo "select * where key = 'a' &" = PCErr KSyntax (-1)%Z /\
   parse_check fo "select zq0 + 1 as zq2, zq1 + 'x' as zq0, key as zq1, zq2 * 2 as zq3 where key > 'a'"
-    = PCErr KCheck 53%Z.
+    = PCErr KCheck 7%Z.
 Proof. intros fo. repeat split; vm_compute; reflexivity. Qed.
 
 Example parse_check_accepted_nonvacuous : forall fo : fops,
   exists s c, parse_check fo "select key as k, upper(k) as u where u = 'A' order by k limit 3" = PCOk s c false /\
               stmt_positions s = [0; 31; 45; 56; 7; 17; 17; 23; 39; 37; 41; 54] /\
-              cstmt_positions c = [7; 17; 17; 23; 7; 39; 37; 17; 17; 23; 41; 54].
+              cstmt_positions c = [7; 17; 17; 23; 7; 39; 37; 17; 17; 23; 7; 41; 54].
 Proof. intros fo. eexists. eexists. split; [vm_compute; reflexivity|]. split; vm_compute; reflexivity. Qed.
